@@ -25,6 +25,9 @@ VolDefined(e, env) ==
     [] OTHER -> FALSE
 \* density counts: n = ceil(d * vol) for the shapes sampled without rejection
 Exact(e) == e.k \in {"interval", "circle", "par", "sphere", "point"} \/ (e.k = "bd" /\ e.d.k \in {"interval", "circle", "par", "tri", "sphere"})
+\* translated / rotated non-rejection shapes
+RECURSIVE ExactT(_)
+ExactT(e) == Exact(e) \/ (e.k \in {"trans", "rot"} /\ ExactT(e.d))
 CeilDiv(a, b) == (a + b - 1) \div b
 CountOK(n, dn, dd, m) ==
     LET lo == dn * (m[1] * 1024 + m[2] * 3216)  hi == dn * (m[1] * 1024 + m[2] * 3217)
@@ -48,6 +51,8 @@ Check(t) ==
          ELSE IF \E i \in J : ~VolClose(vol(i), Vol(e, env(i))) THEN <<"volume-value", "", Cardinality(J)>>
          ELSE IF \E j \in DOMAIN t.single : t.single[j].vol_exc = "" /\ j \in J /\ ~VolClose(t.single[j].vol[1], Vol(e, env(j))) THEN <<"volume-value(single row)", "", Cardinality(J)>>
          ELSE IF t.uservol_exc # "" \/ \E i \in DOMAIN t.uservol : t.uservol[i] # 5 * 1024 THEN <<"user-set-volume-not-used", "", Cardinality(J)>>
+         ELSE IF Exact(e) /\ (t.usercount_exc # "" \/ t.usercount # 10) THEN <<"density-count-ignores-user-set-volume", "", Cardinality(J)>>
+         ELSE IF ExactT(e) /\ t.usercount_exc = "" /\ t.usercount # 10 THEN <<"density-count-ignores-user-set-volume", "", Cardinality(J)>>
          ELSE IF 1 \in J /\ Exact(e) /\ \E c \in {t.counts[i] : i \in DOMAIN t.counts} :
                     c.kind = "random" /\ (c.exc # "" \/ ~CountOK(c.n, c.dn, c.dd, Vol(e, env(1)))) THEN <<"density-count(random)", "", Cardinality(J)>>
          ELSE IF 1 \in J /\ Exact(e) /\ \E c \in {t.counts[i] : i \in DOMAIN t.counts} :
